@@ -23,8 +23,8 @@ PS = "bibtexparser/middlewares/parsestack.py"
 MUTANTS = [
     # ---------------------------------------------------------------- C01
     ("c01-recursion-per-newline", "C01", S,
-     '        while m is not None and m.group(0) == "\\n":\n            self._current_line += 1\n            m = next(self._markiter, None)\n        if m is not None:\n            self._current_char_index = m.start()\n',
-     '        if m is not None and m.group(0) == "\\n":\n            self._current_line += 1\n            return self._next_mark(accept_eof=accept_eof)\n        if m is not None:\n            self._current_char_index = m.start()\n',
+     '        while m is not None and (m.group(0) == "\\n" or self._is_backslash_escaped(m)):\n            if m.group(0) == "\\n":\n                self._current_line += 1\n            m = next(self._markiter, None)\n        if m is not None:\n            self._current_char_index = m.start()\n',
+     '        if m is not None and m.group(0) == "\\n":\n            self._current_line += 1\n            return self._next_mark(accept_eof=accept_eof)\n        if m is not None and self._is_backslash_escaped(m):\n            return self._next_mark(accept_eof=accept_eof)\n        if m is not None:\n            self._current_char_index = m.start()\n',
      "recursion per newline mark again"),
     ("c01-failed-raw-none", "C01", S,
      "                            raw=self.bibstr[m.start() : e.end_index],\n                            error=e,",
@@ -57,12 +57,22 @@ MUTANTS = [
      "            value = self.bibstr[value_start:value_end].strip().rstrip('#').rstrip()\n\n            if key in keys:",
      "control-ish: only differs for values ending in # (outside the dialect) - may not fire"),
     # ---------------------------------------------------------------- C03
+    ("c02-one-char-lookbehind", "C02", S,
+     "        return num_backslashes % 2 == 1\n", "        return num_backslashes >= 1\n",
+     "any backslash in front of a delimiter escapes it again (one-character look-behind)"),
+    ("c14-one-char-lookbehind", "C14", S,
+     "        return num_backslashes % 2 == 1\n", "        return num_backslashes >= 1\n",
+     "same edit, seen through the name round trip (a word ending in an escaped backslash moved in front of '}')"),
+    ("c01-escape-scan-quadratic-safe", "C01", S,
+     "        if m.group(0) not in (\"{\", \"}\", '\"', \",\", \"=\"):\n            return False\n",
+     "        if m.group(0)[0] in \"\\n@\":\n            return False\n",
+     "control: the same test written the other way round: must NOT fire"),
     ("c03-raw-off-by-one", "C03", S,
      "            raw=self.bibstr[start_index : end_bracket_index + 1],", "            raw=self.bibstr[start_index : end_bracket_index],",
      "explicit comment raw loses its closing brace"),
     ("c03-line-not-advanced-crlf", "C03", S,
-     '        while m is not None and m.group(0) == "\\n":\n            self._current_line += 1',
-     '        while m is not None and m.group(0) == "\\n":\n            self._current_line += 0 if self.bibstr[m.start() - 1] == "\\r" and self._is_quote_open else 1',
+     '            if m.group(0) == "\\n":\n                self._current_line += 1',
+     '            if m.group(0) == "\\n":\n                self._current_line += 0 if self.bibstr[m.start() - 1] == "\\r" and self._is_quote_open else 1',
      "control (the flag is never set): must NOT fire"),
     ("c03-implicit-comment-line", "C03", S,
      "                start_line=self._implicit_comment_start_line + leading_empty_lines,",
@@ -316,4 +326,4 @@ def _fix():
 
 
 MUTANTS = _fix()
-CONTROLS = {"c01-no-progress", "c03-line-not-advanced-crlf", "c02-close-brace-in-quotes", "c02-hash-value-trim"} | {r[0] for r in REFACTORINGS}
+CONTROLS = {"c01-no-progress", "c01-escape-scan-quadratic-safe", "c03-line-not-advanced-crlf", "c02-close-brace-in-quotes", "c02-hash-value-trim"} | {r[0] for r in REFACTORINGS}
